@@ -98,7 +98,49 @@ def r2(ck, ph, sites):
         ck.ob("positive control: a write through `field_nodes` is recognised", _root_name(call.func.value) in AST_ROOTS, where="sa/props/c15.py", construct="readonly:control")
 
 
+def _no_shared_exception_instance(ck, repo):
+    """Every `raise` of the package raises an exception built for this failure (a call, a class, a caught or locally built
+    object): located_error / graphql_error_from_nodes decorate a coercible exception *in place* with the failing field's path
+    and locations and never overwrite them, so an import-time instance would carry the first request's path into every later one."""
+    n = 0
+    for f in repo.all_funcs():
+        bound = set(f.positional_params) | {a.arg for a in f.node.args.kwonlyargs}
+        for x in walk_no_nested(f.node):
+            if isinstance(x, (ast.Assign, ast.AnnAssign, ast.AugAssign, ast.For, ast.AsyncFor, ast.With, ast.AsyncWith, ast.NamedExpr, ast.comprehension)):
+                for t in ast.walk(x):
+                    if isinstance(t, ast.Name) and isinstance(t.ctx, ast.Store):
+                        bound.add(t.id)
+            elif isinstance(x, ast.ExceptHandler) and x.name:
+                bound.add(x.name)
+        for x in walk_no_nested(f.node):
+            if not isinstance(x, ast.Raise) or x.exc is None:
+                continue
+            n += 1
+            e = x.exc
+            if not isinstance(e, ast.Name) or e.id in bound:
+                continue
+            target = f.module.assigns.get(e.id)
+            if target is None:
+                target = repo.lookup(repo.resolve_name(f.module, e.id))
+            if isinstance(target, ast.Call):
+                ck.ob(f"{f.qualname}: raises an exception built for this failure, not the import-time instance `{e.id}`", False, f, x, construct=f"global:shared-exception:{e.id}",
+                      detail="one exception object shared by every request (and every engine): the error path / locations written into it by the first failure are reported for all later ones")
+    ck.ob("no raise statement of the package raises a module-level exception instance", True, where="tartiflette/", construct="raise:census", evals=n)
+    # positive control: the census recognises such a raise when there is one
+    import textwrap
+    probe = ast.parse(textwrap.dedent("""
+        _E = ValueError("x")
+        def f():
+            raise _E
+    """))
+    glob = {t.id: st.value for st in probe.body if isinstance(st, ast.Assign) for t in st.targets}
+    r = [x for x in ast.walk(probe) if isinstance(x, ast.Raise)][0]
+    ck.ob("positive control: raising an import-time instance is recognised", isinstance(glob.get(r.exc.id), ast.Call), where="sa/props/c15.py", construct="raise:control")
+    ck.count("raise_statements", n, 60)
+
+
 def _per_request_objects(ck, repo, ph):
+    _no_shared_exception_instance(ck, repo)
     ctor_sites = {"ExecutionContext": [], "ResolveInfo": []}
     for f in repo.all_funcs():
         for n in walk_no_nested(f.node):
